@@ -24,7 +24,7 @@ def traces(chk, gen, check, quick=(4, 600), thorough=(16, 3000), note=None):
 
 
 FLOATPROGS_NOTE = ("random programs of NESTED float and mixed int/float arithmetic (+ - * / % ^, unary minus, comparisons, && ||, "
-                   "floor ceil round math::sqrt abs exp ln cbrt, if, all seven arithmetic assignment forms on float and int "
+                   "floor ceil round math::sqrt abs exp ln cbrt, min max math::pow hypot atan2, if, all seven arithmetic assignment forms on float and int "
                    "variables, chains) on a context that persists across programs; the operand pairs of the inner operations "
                    "are listed by a shadow walk of the generator's own AST and tabulated by primgen; result, type and context "
                    "afterwards must be the specification's")
